@@ -11,3 +11,5 @@ ASSUMPTIONS = [
 ]
 EXPLANATION = ("contracts on the box primitives and the per-edge loops of _populate_face_latlon_bound; "
                "_pole_point_inside_polygon and the padding gymnastics of _get_*_face_edge_nodes are bounded stand-ins")
+LEVEL_TEXT = '_get_latlonbox_width and _insert_pt_in_latlonbox proved over the reals (enclosure of point and old box, periodic longitude, narrower extension chosen, pole markers); the per-edge loops, arc extremes and pole predicate are bounded (dense arc sampling on generated faces)'
+LEVEL_NOTE = 'A-REAL, fmod axioms; extreme_gca_latitude and _pole_point_inside_polygon not under contract'
